@@ -34,6 +34,16 @@ CORE = [
     ["NT 2", "TASKFN 1 N2", "CLIENT 0 N1 X1 R"],
     ["NT 2", "TASKFN 1 N2", "CLIENT 0 F1:5 X1 P P P R"],
     ["NT 3", "TASKFN 1 X2", "TASKFN 2 N3", "CLIENT 0 F2:3 N1 P P R"],
+    # quiet moments while tasks are outstanding (the client sleeps): whatever is due must have run by then
+    ["NT 2", "CLIENT 0 N1 Z10 R", "CLIENT 1 F2:5 Z10 Z10 R"],
+    # a task object handed over again after its function ran (no second aws_task_init), also after a cancel
+    ["NT 1", "CLIENT 0 N1 W1 F1:20 W1 N1 W1 R"],
+    ["NT 1", "CLIENT 0 F1:3600000 X1 W1 N1 Z50 Z50 R"],
+    ["NT 2", "CLIENT 0 F1:3600000 F2:10 X1 W1 W2 F1:5 N2 Z20 Z20 R"],
+    # tasks parked at the far end of the clock next to ordinary ones
+    ["NT 2", "CLIENT 0 A1:max F2:100 Z200 Z200 X1 R"],
+    ["NT 2", "CLIENT 0 F2:100 A1:half Z150 Z150 R"],
+    ["NT 3", "CLIENT 0 A1:half N3 F2:30 Z50 Z50 R", "CLIENT 1 Z10 X1 R"],
 ]
 
 
@@ -50,6 +60,23 @@ def random_scenario(rng):
         if rng.random() < 0.5:
             kc = k if rng.random() < 0.6 else rng.randrange(nclients)
             ops[kc].append("X%d" % t)
+    if rng.random() < 0.45:
+        # quiet moments, parked tasks and task objects that are handed over a second time
+        for k in range(nclients):
+            o = ops[k]
+            mine = [int(x[1:].split(":")[0]) for x in o if x[0] in "NF"]
+            for t in mine:
+                if rng.random() < 0.4:
+                    o.append("W%d" % t)
+                    o.append(rng.choice(["N%d" % t, "F%d:%d" % (t, rng.choice([0, 3, 50]))]))
+            for _ in range(rng.choice([1, 2, 2, 3])):
+                o.insert(rng.randrange(len(o) + 1), "Z%d" % rng.choice([1, 5, 20, 100, 1000]))
+        if ntasks < 6 and rng.random() < 0.5:
+            ntasks += 1
+            k = rng.randrange(nclients)
+            ops[k].insert(rng.randrange(len(ops[k]) + 1), "A%d:%s" % (ntasks, rng.choice(["max", "half"])))
+            if rng.random() < 0.5:
+                ops[rng.randrange(nclients)].append("X%d" % ntasks)
     lines = ["NT %d" % ntasks]
     spare = ntasks
     for t in range(1, ntasks + 1):
